@@ -4,6 +4,7 @@
 cd /verif
 run() {
   d=$(mktemp -d); cp -r /repo/include $d/
+  cp evidence/C12.json $d/ev_keep.json 2>/dev/null; ls replays > $d/replays_before.txt 2>/dev/null   # a mutant run must not leave evidence / replays behind
   python3 - "$d/include/momo/$2" "$3" "$4" <<'PY'
 import sys
 p,old,new=sys.argv[1:4]
@@ -14,6 +15,7 @@ PY
   echo "=== $1"; VERIF_REPO=$d timeout 3000 ./check C12 > build/C12/mut_$1.log 2>&1; echo "exit=$?"
   grep -E "BROKEN|VIOLATION|done:" build/C12/mut_$1.log | cut -c1-230
   cp build/C12/coq_make.log build/C12/coq_make_$1.log 2>/dev/null
+  cp $d/ev_keep.json evidence/C12.json 2>/dev/null; for r in $(ls replays | grep '^C12-'); do grep -qx "$r" $d/replays_before.txt || rm -f replays/$r; done
   rm -rf $d
 }
 run J1 HashSet.h "				buckets = buckets->GetNextBuckets();
@@ -24,3 +26,4 @@ run J1 HashSet.h "				buckets = buckets->GetNextBuckets();
 run K1 details/HashBucketOpen2N2.h "			return size_t{mState[0]} << (mState[1] >> 2);" "			return (size_t{mState[0]} << (mState[1] >> 2)) >> 1;"
 # K2: the per-generation probing loop of HashSet::pvFind(indexCode, buckets, pred) stops one probe early
 run K2 HashSet.h "		for (size_t probe = 1; bucket->WasFull() && probe <= maxProbe; ++probe)" "		for (size_t probe = 1; bucket->WasFull() && probe < maxProbe; ++probe)"
+python3 /verif/props/C12/regen_clean.py   # leave the clean translation in the shared coq directory
